@@ -14,7 +14,13 @@ namespace C15
 /-- **Tie to the specification used by the live runs**: the regenerated `main` does exactly what
     `SandboxSpec.main` does, for every world and every behaviour of untranslated statements. -/
 theorem translator_tie (U : SUnsupported) (w : SWorld) : Gen.sandboxMain U w = SandboxSpec.main w := by
-  rfl
+  first
+  | rfl
+  | -- an equivalent arrangement of the same steps: by cases on every outcome the world can produce
+    (unfold Gen.sandboxMain SandboxSpec.main
+     simp only [parsePolicyS, loadFilterS, cmdRun, execCommand]
+     obtain ⟨args, nnp, parseOk, loadOk, runOk, events⟩ := w
+     cases args <;> cases parseOk <;> cases loadOk <;> cases runOk <;> simp)
 
 /-- the translator rendered every statement of `main` -/
 theorem skeleton_complete : Gen.sandboxNotes = [] := by decide
